@@ -119,6 +119,13 @@ pub fn buffers(tier: &str) -> Vec<BufGen> {
         }
         // every materialisable count with byte-distinct records (exact packets)
         v.push(bg(format!("v{}-materialised-counts-0..={}", version, maxrec), maxrec as u64 + 1, move |n| fixed_distinct(version, n as usize, 7)));
+        // packets of 0..=4 records followed by a packet of the other version and one of the same version
+        v.push(bg(format!("v{}-count-0..=4-followed-by-two-packets", version), 5 * 3, move |i| {
+            let mut b = fixed_distinct(version, (i / 3) as usize, 31);
+            b.extend(fixed_distinct(12 - version, (i % 3) as usize, 32));
+            b.extend(fixed_distinct(version, 2, 33));
+            b
+        }));
         // (d) all 256 protocol numbers at record 0 and record 1
         v.push(bg(format!("v{}-all-protocol-numbers", version), 512, move |i| {
             let mut b = fixed_distinct(version, 2, 23);
